@@ -399,3 +399,42 @@ sys_prop(
      "C14_no_record_records_nothing", "C14_helper_thread_records_nothing",
      "C14_top_level_load_leaves_no_record"],
     ["Records", "Anycache", "Asset"], [], mode="hot")
+
+PROPS["C12"] = dict(
+    technique="Coq proof that id_of_path inverts path_of for every valid entry under any root at any depth, "
+              "injectivity of path_of, root and parent coverage of the event table; id_of_path, IdBuilder, "
+              "extension_of and the event-kind table regenerated from the source and run by the interpreter "
+              "against the model on an exhaustive bounded sweep; synthetic notify events through the real "
+              "handler (hook) on a real directory tree, compared as sets",
+    level_text="Theorems (Props/C12.v, closed under the global context): on every path made of a root plus up "
+               "to 3 components of a representative alphabet (both is_dir answers) the printed id_of_path "
+               "(with IdBuilder::{push,pop,join,reset} and extension_of) computes the model's answer, and the "
+               "printed event-kind match computes the model's looked-up paths for every kind (bounded, "
+               "exhaustive); for EVERY root and valid entry id_of_path (path_of e) = e with the right kind, "
+               "the root itself is Directory \"\", two valid entries of one kind never share a path, a path "
+               "outside the root gives no event, and every create / rename / delete (and modify) names the "
+               "entry, the first three also its parent.  Partial: what inotify reports and Path::is_dir on "
+               "deleted entries are OS behaviour (a deleted directory is reported as a file entry).",
+    level_note="Trusted: Coq kernel+VM, rs2v, Rust/Eval.v, the std::path operations as modelled over component "
+               "lists (parent, strip_prefix, components, file_stem, extension), the hook WatcherProbe.",
+    gen=["Watcher", "Private"],
+    model_files=["Ref/Watcher.v", "Corr/Common.v", "Corr/WatchCheck.v"],
+    model_targets=["Corr/WatchCheck.vo"],
+    proof_files=["Proofs/Watcher.v", "Tie/Watcher.v", "Props/C12.v"],
+    proof_targets=["Props/C12.vo"],
+    props_module="Props.C12",
+    theorems=["C12_code_id_of_path_is_model_on_the_sweep", "C12_code_event_table_is_model",
+              "C12_id_of_path_inverts_path_of", "C12_root_is_the_empty_directory_entry",
+              "C12_ids_and_paths_round_trip", "C12_outside_every_root_is_no_event",
+              "C12_events_name_the_entry", "C12_events_name_the_parent"],
+    engines=[("watchdiff", [])],
+    rule="watchdiff: a real temporary tree (nested dirs, files with / without extension, unicode and spaces, "
+         "two dots, hidden files, a dotted directory); notifications for the roots themselves, every entry, "
+         "removed / never existing entries, paths with `..` and `.`, paths outside every root x 12 notify "
+         "event kinds x 3 root sets (one root, two disjoint roots, a root nested in another), fed to the "
+         "crate's NotifyEventHandler through the hook; sent entries compared as sets with Ref.Watcher.handle. "
+         "Non-trivial = at least one entry sent; distinct = distinct printed case.",
+    trusted_base=["synthetic notify::Event values stand for what the OS watcher reports"],
+    modelled=["paths as component lists; file names split at the last dot; the filesystem's is_dir as a parameter"],
+    assumptions=["valid names: non-empty dot-free segments, dot-free extension (I4)"],
+)
